@@ -378,9 +378,11 @@ class Inotify:
                                     _move_to_path = _path.replace(move_src_path, inotify_event.src_path)
                                     self._wd_for_path[_move_to_path] = moved_wd
                                     self._path_for_wd[moved_wd] = _move_to_path
-                    elif self.is_recursive and inotify_event.is_directory:
-                        # The directory arrives from outside the watched tree, or it never got
-                        # a watch under its previous name: start watching it now.
+                    if self.is_recursive and inotify_event.is_directory:
+                        # The directory may arrive from outside the watched tree, or it (or a part
+                        # of it) never got a watch under its previous name: make sure that the
+                        # whole tree is watched. Directories that are watched already keep their
+                        # descriptor.
                         with contextlib.suppress(OSError):
                             self._add_dir_watch(inotify_event.src_path, self._event_mask, recursive=True)
                     src_path = os.path.join(wd_path, name)
